@@ -43,6 +43,15 @@ def regenerate_guards(pid):
     old = target.read_text() if target.exists() else ""
     if text != old: target.write_text(text)
     info["changed_since_last_run"] = text != old
+    if pid == "C03":
+        # the wiring of the standard pipelines, as lenskit's own builders construct it now (translate/wiring_gen.py)
+        import wiring_gen
+        wt = LEAN_DIR / "LK" / "Generated" / "WiringC03.lean"
+        try: wtext = wiring_gen.generate()
+        except Exception as e: return "untranslatable", f"wiring of the standard pipelines could not be extracted: {type(e).__name__}: {e}", info
+        wold = wt.read_text() if wt.exists() else ""
+        if wtext != wold: wt.write_text(wtext)
+        info["wiring"] = {"module": "LK.Gen.WiringC03", "obligations": "LK/Proofs/WiringC03.lean", "changed_since_last_run": wtext != wold}
     return "ok", "regenerated" if text != old else "unchanged", info
 
 def obligation_broken(pid, why, mod, tier, seed, replay, info):
@@ -105,7 +114,7 @@ def main():
         if status in ("untranslatable", "obligation-broken"):
             sys.exit(search_chunking(a.pid, f"{status}: {msg}"))
         if status == "build-error":
-            if ginfo is not None and f"Guards{a.pid}" in msg:
+            if ginfo is not None and (f"Guards{a.pid}" in msg or f"Wiring{a.pid}" in msg):
                 sys.exit(obligation_broken(a.pid, "obligation-broken: " + msg.replace("\n", " | ")[:900], mod, a.tier, seed, a.replay, ginfo))
             print(f"machinery error: lake build failed\n{msg}", file=sys.stderr); sys.exit(2)
     else:
@@ -113,7 +122,7 @@ def main():
         r = subprocess.run(["lake", "build", f"LK.Props.{a.pid}", "lkdriver"], cwd=LEAN_DIR, capture_output=True, text=True, timeout=1800)
         if r.returncode != 0:
             bad = [l for l in (r.stdout + r.stderr).splitlines() if "error" in l][:8]
-            if ginfo is not None and any(f"Guards{a.pid}" in l for l in bad):
+            if ginfo is not None and any((f"Guards{a.pid}" in l or f"Wiring{a.pid}" in l) for l in bad):
                 sys.exit(obligation_broken(a.pid, "obligation-broken: " + " | ".join(bad)[:900], mod, a.tier, seed, a.replay, ginfo))
             print("machinery error: lake build failed\n" + "\n".join(bad[:6]), file=sys.stderr); sys.exit(2)
     try:
